@@ -214,3 +214,58 @@ def apply_ops(sf, ops):
             cls = {"RuntimeError": RuntimeError, "KeyError": KeyError, "KeyboardInterrupt": KeyboardInterrupt, "SystemExit": SystemExit,
                    "ValueError": ValueError, "ZeroDivisionError": ZeroDivisionError, "GeneratorExit": GeneratorExit}[op[1]]
             raise cls("from the body")
+
+
+# ---------------------------------------------------------------- directory trees (C19, C20)
+class Tree:
+    """a directory tree {name: bytes | dict} materialised on the native file system or in a MemoryFS"""
+
+    def __init__(self, kind, tree, rootname="pack"):
+        self.kind = kind
+        if kind == "native":
+            from simfile._private.nativeosfs import NativeOSFS
+            self.base = tempfile.mkdtemp(prefix="verif_tree_")
+            self.fs = NativeOSFS()
+            self.sep = os.sep
+        else:
+            from fs.memoryfs import MemoryFS
+            self.base = "/base"
+            self.fs = MemoryFS()
+            self.fs.makedirs(self.base)
+            self.sep = "/"
+        self.root = self.base + self.sep + rootname
+        self._mk(self.root, tree)
+
+    def _mk(self, path, node):
+        if self.kind == "native":
+            os.makedirs(path, exist_ok=True)
+        else:
+            self.fs.makedirs(path, recreate=True)
+        for name, child in node.items():
+            p = path + self.sep + name
+            if isinstance(child, dict):
+                self._mk(p, child)
+            elif self.kind == "native":
+                with open(p, "wb") as f:
+                    f.write(child)
+            else:
+                self.fs.writebytes(p, child)
+
+    def listdir(self, path):
+        return list(self.fs.listdir(path))
+
+    def isdir(self, path):
+        return self.fs.isdir(path)
+
+    def rel(self, p):
+        if p is None:
+            return None
+        p = p.replace("\\", "/")
+        b = self.base.replace("\\", "/")
+        return p[len(b):] if p.startswith(b) else "ABS:" + p
+
+    def close(self):
+        if self.kind == "native":
+            shutil.rmtree(self.base, ignore_errors=True)
+        else:
+            self.fs.close()
